@@ -332,6 +332,36 @@ fn build(c: &Case, tier: &str) -> XCase {
     }
 }
 
+/// User impls whose header has ANONYMOUS lifetimes (`W<'_>`, the 2018 idiom): `Self` in `Output` / the header types are
+/// repeated by the derived impls in positions where `'_` is not allowed. Terminal state = (operator, base in
+/// {Op with Output = Self, Op with Output not mentioning Self, OpAssign}, requested trait); all forms are executed.
+fn anonymous_lifetime_cases(tier: &str) -> Vec<XCase> {
+    let mut v = Vec::new();
+    for (tr, f, sym) in [("Sub", "sub", "-"), ("Shl", "shl", "<<")] {
+        let tra = format!("{tr}Assign");
+        let fa = format!("{f}_assign");
+        // (description, requested, user impl, run body, expected)
+        let bases: Vec<(&str, String, String, String, String)> = vec![
+            ("Op<u32> for W<'_> with Output = Self", format!("{tr}Assign"), format!("impl ::core::ops::{tr}<u32> for W<'_> {{ type Output = Self; fn {f}(self, r: u32) -> Self {{ W(self.0, self.1 + r) }} }}"),
+             format!("let z = 0u8; let mut a = W(&z, 1); a {sym}= 5u32; format!(\"{{}}\", a.1)"), "6".to_string()),
+            ("Op<u32> for W<'_> with Output = Self, by-reference forms", format!("{tr}"), format!("impl ::core::ops::{tr}<u32> for W<'_> {{ type Output = Self; fn {f}(self, r: u32) -> Self {{ W(self.0, self.1 + r) }} }}"),
+             format!("let z = 0u8; let a = W(&z, 1); let b = &a {sym} 5u32; let c = &a {sym} &6u32; let d = a {sym} &7u32; format!(\"{{}};{{}};{{}}\", b.1, c.1, d.1)"), "6;7;8".to_string()),
+            ("Op<u32> for W<'_> with Output = u32", format!("{tr}"), format!("impl ::core::ops::{tr}<u32> for W<'_> {{ type Output = u32; fn {f}(self, r: u32) -> u32 {{ self.1 + r }} }}"),
+             format!("let z = 0u8; let a = W(&z, 1); format!(\"{{}};{{}};{{}}\", &a {sym} 5u32, &a {sym} &6u32, a {sym} &7u32)"), "6;7;8".to_string()),
+            ("OpAssign<u32> for W<'_>", format!("{tr}"), format!("impl ::core::ops::{tra}<u32> for W<'_> {{ fn {fa}(&mut self, r: u32) {{ self.1 += r; }} }}"),
+             format!("let z = 0u8; let a = W(&z, 1); let b = a {sym} 5u32; format!(\"{{}}\", b.1)"), "6".to_string()),
+        ];
+        for (what, req, imp, run, exp) in bases {
+            let code = format!("use derive_ex::derive_ex;\n#[derive(Clone, Debug)] pub struct W<'a>(pub &'a u8, pub u32);\n#[derive_ex({req})]\n{imp}\npub fn run() -> String {{ {run} }}\n");
+            let mut atoms = BTreeSet::new();
+            atoms.insert(format!("op={tr}"));
+            atoms.insert("header=anonymous-lifetime".to_string());
+            v.push(XCase { text: format!("derive_ex({req}) {imp}"), code, expected: exp, atoms, nontrivial: true, detail: json!({"kind": "anonymous-lifetime", "tier": tier, "impl": imp, "requested": req}), what: format!("derive_ex({req}) on `{what}` ({tr})"), inner: 3, symptom: "forwarding-result-or-call-trace-differs".into(), must_compile: true });
+        }
+    }
+    v
+}
+
 pub fn run(ctx: &Ctx, rep: &mut Report) {
     let thorough = ctx.tier.is_thorough();
     rep.rule = "terminal state = (operator, base form of the user impl [A|&A x Rhs|&Rhs, or OpAssign<Rhs|&Rhs>], Rhs type [Self omitted / written / `Self` keyword / another type / a reference to another type with an explicit lifetime (an opaque by-value operand)], requested set {Op},{OpAssign},{Op,OpAssign} in both list orders, generic or not, user bounds without `Self`, with a where-clause predicate on `Self`, or (generic) an inline bound `T: Rel<Self>` that only the base impl's own Self type satisfies); inner enumeration = all 9 operand pairs x every owned/reference form that exists; distinct by program text; every case is non-trivial (user bodies are non-commutative and log calls and clones)".into();
@@ -346,6 +376,9 @@ pub fn run(ctx: &Ctx, rep: &mut Report) {
         let st = explore(|ch| gen(ch, thorough), |_, c| cases.push(c));
         rep.stats.add(&st);
     }
-    let x: Vec<XCase> = cases.iter().map(|c| build(c, ctx.tier.name())).collect();
+    let mut x: Vec<XCase> = cases.iter().map(|c| build(c, ctx.tier.name())).collect();
+    if ctx.replay.is_none() {
+        x.extend(anonymous_lifetime_cases(ctx.tier.name()));
+    }
     run_and_compare(rep, "c09", &x);
 }
